@@ -14,7 +14,7 @@ claimed={
    tech=T+"multi-process kill injection, strict independent decode after every step"),
  "C05": dict(level="fault_enumeration", design="5 (C05)",
    text="Counter side of the property: for each seeded workload the fault-free execution is recorded, then re-executed with every single file-system/mmap call failing (7 errnos + short write; quick tier: every call with a third of the errnos and all short writes), with persistent states (read-only, permission denied, mmap always failing, directory found as a regular file, files deleted while in use) and with pairs (all pairs for small workloads in the thorough tier). Oracle: no panic, no memory fault, every call returns within the step budget (solo-run confirmation), and per counter persisted+pending equals the amounts added (failures only keep counts in memory). Second family: files damaged at rest (random bytes, truncation classes, header length, limit, bucket heads, name lengths, links incl. self-loops, longer cycles, cross-chain links; plain and ditto-compressed stack names) are opened and incremented: totality only.",
-   note="Upload-side (upload.Run) failures are not covered by this check yet. An absurd recorded limit (library creates a sparse file of that size) is not generated for the library consumer. Known finding munmap-with-holders quarantined. Trusted: simrt shim (a failed call is not performed), refformat.",
+   note="Upload side: a third family runs one upload.Run in the machine world under the same single/pairwise/persistent fault enumeration plus server failures and damaged count files (returns, no escaping panic, step budget, no inflated value in any report). An absurd recorded limit (library creates a sparse file of that size) is not generated for the library consumer. Known finding munmap-with-holders quarantined. Trusted: simrt shim (a failed call is not performed), refformat.",
    tech="deterministic simulation with single/pairwise fault enumeration over recorded call sequences, at-rest corruption, loop budgets via generated ticks"),
  "C06": dict(level="exploration", design="5 (C06), 6",
    text="Only the clauses that meet the simulated schedule and disk: Parse is run on the live file's bytes after every scheduler step of multi-process histories with kills and must return; whenever the independent decoder accepts the snapshot Parse must yield the same metadata and name/value pairs with stack names expanded (independent ditto expansion). Parse on structurally damaged files must return an error or a result within a loop budget (the parser's loops carry generated ticks), and agree with the independent decoder when the damage left the file well-formed.",
@@ -22,7 +22,7 @@ claimed={
    tech=T+"differential oracle against an independent decoder on every intermediate snapshot; structured at-rest damage"),
  "C09": dict(level="exploration", design="5 (C09)",
    text="Counter side: a rotating process on a simulated calendar (1990..2060, biased to day/month/year/leap boundaries and to the last seconds of a day), week-end setting valid / missing / empty / garbage, the clock jumping to end-1ns, end, end+1ns, hours or weeks later while increments are in flight, the real rotate re-arming itself through the simulated AfterFunc. Every created file's TimeBegin, TimeEnd and name are checked against independent civil-date arithmetic using the clock value the creating task actually read; once a rotation has completed old files may only grow by increments that were already in flight; after the clock stops and timers fire the process records into the file whose span covers the present.",
-   note="The uploader side (expiry test, week naming) is not covered by this check yet. Trusted: simrt clock, refcal. Crashes/lost counts in this world are reported by C03/C05, not here.",
+   note="Uploader side: a second family (machine world) places the run's start time at end-1ns / end / end+1ns / later relative to a file's recorded end and applies the C07 report oracle with that start time: a file is consumed iff its end is before the start time and reported under the week named by its end date. Trusted: simrt clock, refcal. Crashes/lost counts in this world are reported by C03/C05, not here.",
    tech=T+"discrete-event clock with simulated AfterFunc, calendar oracle from independent day-number arithmetic"),
  "C10": dict(level="exploration", design="5 (C10)",
    text="Histories of create / increment / close / reopen (restart) / extend by 1..3 concurrent writer processes over names of 1..4096 bytes of arbitrary content and build metadata up to and beyond the 512-byte cap, optionally starting from a file produced by the independent encoder (different placement policy, tail insertion). Every intermediate snapshot is strictly decoded (prefix, header length, 512 buckets, FNV-1a bucket of every linked name, 32-byte alignment, no overlap, page tails free, limit monotone and within the file); the final content equals the model; the library's reader agrees with the independent decoder; (previous limit mod page, name length) placement cases reached are counted.",
